@@ -36,24 +36,30 @@ def norm_parcomm_sends(text):
     return re.sub(r"S (\d+) p ((?:(?!\bS \d+ p\b|\bR \d+ p\b|@\d+).)*)", repl, text)
 
 
-def outputs_equal(base, other):
-    """per case: all keys equal; PKG keys equal after normalising the arrival order of send-side messages"""
+def outputs_equal(base, other, unstable=()):
+    """per case: the same sequence of (key, tokens) lines; PKG keys equal after normalising the arrival order of
+    send-side messages; lines listed in `unstable` (they differ between two unperturbed runs: uninitialised
+    fields printed by a driver, timings) are not compared"""
     diffs = []
     for cid, kv in base.items():
-        o = dict((k, v) for k, v in other.get(cid, []))
-        for k, v in kv:
-            if k not in o: diffs.append((cid, k, "missing")); continue
-            if v == o[k]: continue
+        okv = other.get(cid, [])
+        if [k for k, _ in kv] != [k for k, _ in okv]:
+            diffs.append((cid, "keys", "%s vs %s" % ([k for k, _ in kv][:12], [k for k, _ in okv][:12]))); continue
+        for pos, ((k, v), (_, ov)) in enumerate(zip(kv, okv)):
+            if v == ov or (cid, pos) in unstable: continue
             if k.endswith("PKG"):
-                try:
-                    if norm_parcomm_sends(" ".join(v)) == norm_parcomm_sends(" ".join(o[k])): continue
-                except Exception:
-                    pass
-                # node-aware packages may also legitimately differ in which local process relays a node's traffic
-                # only through arrival order of the size-sorted assignment; the buffers below decide
-                continue
-            diffs.append((cid, k, "%s vs %s" % (" ".join(v)[:200], " ".join(o[k])[:200])))
+                continue        # package dumps record arrival order; the exchanged buffers below decide
+            diffs.append((cid, k, "%s vs %s" % (" ".join(v)[:200], " ".join(ov)[:200])))
     return diffs
+
+
+def unstable_lines(a, b):
+    out = set()
+    for cid, kv in a.items():
+        okv = b.get(cid, [])
+        for pos, (k, v) in enumerate(kv):
+            if pos >= len(okv) or okv[pos] != (k, v): out.add((cid, pos))
+    return out
 
 
 def run_scenario(ctx, name, driver, lines, P, K, timeout=120):
@@ -65,6 +71,9 @@ def run_scenario(ctx, name, driver, lines, P, K, timeout=120):
     if rc != 0:
         ctx.signal("O", "%s:baseline_crash_or_hang" % name, "unperturbed run failed rc=%s %s" % (rc, err[-200:]), case=lines[0]); return
     ctx.count("scenario_%s_P%d" % (name, P))
+    rc1, out1, err1 = buildlib.run_driver(exe, cf, nprocs=P, timeout=timeout)
+    unstable = unstable_lines(base, fw.parse_out(out1)) if rc1 == 0 else set()
+    if unstable: ctx.count("unstable_lines_excluded_%s" % name, len(unstable))
     for k in range(K):
         seed = ctx.seed * 1000 + k + 1
         env = {"LD_PRELOAD": shim, "VERIF_SCHED_SEED": str(seed)}
@@ -79,7 +88,7 @@ def run_scenario(ctx, name, driver, lines, P, K, timeout=120):
                        case=lines[0], extra=dict(schedule_seed=seed)); continue
         got = fw.parse_out(out)
         ctx.compared += 1
-        d = outputs_equal(base, got)
+        d = outputs_equal(base, got, unstable)
         if d:
             cid, key, why = d[0]
             line = next((l for l in lines if l.split()[0] == cid), lines[0])
